@@ -136,10 +136,14 @@ impl CaseDir {
         let n = CASE_NO.fetch_add(1, Ordering::SeqCst);
         let d = scratch_root().join(format!("c{n}"));
         let _ = std::fs::remove_dir_all(&d);
-        std::fs::create_dir_all(d.join("t")).expect("scratch dir");
-        std::fs::create_dir_all(d.join("n")).expect("scratch dir");
-        std::fs::create_dir_all(d.join("e")).expect("scratch dir");
         CaseDir(d)
+    }
+}
+impl CaseDir {
+    fn sub(&self, name: &str) -> PathBuf {
+        let d = self.0.join(name);
+        std::fs::create_dir_all(&d).expect("scratch dir");
+        d
     }
 }
 impl Drop for CaseDir {
@@ -398,8 +402,8 @@ fn run(kind: &str, input: &Value) -> Value {
                     return json!(["invalid"]);
                 }
                 let cd = CaseDir::new();
-                let target = cd.0.join("t").join(&name);
-                let neutral = cd.0.join("n").join("plain");
+                let target = cd.sub("t").join(&name);
+                let neutral = cd.sub("n").join("plain");
                 let Ok(stored) = do_write(w, &Loc::File(&target), &rows, shards) else {
                     return json!(["werr"]);
                 };
@@ -441,7 +445,7 @@ fn run(kind: &str, input: &Value) -> Value {
                         if encname.contains('/') {
                             return json!(["invalid"]);
                         }
-                        do_write(w, &Loc::File(&cd.0.join("e").join(&encname)), &rows, shards)
+                        do_write(w, &Loc::File(&cd.sub("e").join(&encname)), &rows, shards)
                     };
                     match res {
                         Ok(b) => b,
@@ -466,7 +470,7 @@ fn run(kind: &str, input: &Value) -> Value {
                 if name.contains('/') {
                     return json!(["invalid"]);
                 }
-                let target = cd.0.join("t").join(&name);
+                let target = cd.sub("t").join(&name);
                 std::fs::write(&target, &content).expect("write raw file");
                 let ro = do_read(r, &Loc::File(&target), hdr);
                 json!([head(&content), ro, reference])
@@ -567,7 +571,7 @@ fn generate(seed: u64, tier: Tier, em: &mut Emitter) {
                 let lower = var == *ext;
                 for (pi, &(w, r)) in all_pairs.iter().enumerate() {
                     // quick tier: mixed-case variants rotate through the readers of the format
-                    if !thorough && !lower && (pi + vi) % 3 != 0 {
+                    if !thorough && !lower && (pi + vi) % 4 != 0 {
                         continue;
                     }
                     let name = format!("{}{}", stem_for(wfmt(w), vi), var);
@@ -594,16 +598,19 @@ fn generate(seed: u64, tier: Tier, em: &mut Emitter) {
             emit_rt(em, w, r, &cname, &small, Some(3), false, &["neutral-name"]);
         }
     }
-    for (name, _) in CODEC_NAMES.iter() {
-        for &(w, r) in all_pairs.iter() {
+    for (ni, (name, _)) in CODEC_NAMES.iter().enumerate() {
+        for (pi, &(w, r)) in all_pairs.iter().enumerate() {
+            if !thorough && (pi + ni) % 3 != 0 {
+                continue;
+            }
             emit_rt(em, w, r, name, &small, Some(2), true, &["odd-codec-name"]);
         }
     }
     for key in csv_keys {
         let rs = rows(&[key, "CA"]);
         let sigish = key.as_bytes()[0] == b'B' || key.as_bytes()[0] == b'(' || key.as_bytes()[0] == 0x1f;
-        for &(w, r) in all_pairs.iter() {
-            if wfmt(w) != Fmt::Csv {
+        for (pi, &(w, r)) in all_pairs.iter().enumerate() {
+            if wfmt(w) != Fmt::Csv || (!thorough && (pi + key.len()) % 3 != 0) {
                 continue;
             }
             for name in ["x.csv", "data", "x.csv.gz", "x.BZ2"] {
@@ -619,9 +626,9 @@ fn generate(seed: u64, tier: Tier, em: &mut Emitter) {
         }
     }
     // large payload: more than one 8 KiB buffer
-    let big: Vec<Row> = (0..700).map(|i| (format!("key-{i:05}"), i)).collect();
-    for &(w, r) in all_pairs.iter() {
-        if wfmt(w) == Fmt::Parquet && !thorough {
+    let big: Vec<Row> = (0..40).map(|i| (format!("key-{i:03}-{}", "x".repeat(240)), i)).collect();
+    for (pi, &(w, r)) in all_pairs.iter().enumerate() {
+        if !thorough && (wfmt(w) == Fmt::Parquet || pi % 4 != 0) {
             continue;
         }
         for name in ["big.dat", "big.gz", "big.zst"] {
@@ -640,9 +647,12 @@ fn generate(seed: u64, tier: Tier, em: &mut Emitter) {
         let text = if csv { csv_text(&body) } else { jsonl_text(&body) };
         // readers that can skip the first line: CSV has_headers, JSONL range reader from line 1
         let skip = csv || r == R_JSONL_RANGE;
-        for name in raw_names {
+        for (ni, name) in raw_names.into_iter().enumerate() {
             emit_lit(em, r, name, &[], false, &["raw", "empty-file"]);
             emit_lit(em, r, name, &text, false, &["raw", "plain"]);
+            if !thorough && !(ni == 0 || ni == 2 || ni == 7) {
+                continue;
+            }
             for sig in SIGS.iter() {
                 // every prefix of the signature: proper ones, the full one, full + one more byte
                 for len in 1..=sig.len() + 1 {
@@ -682,8 +692,13 @@ fn generate(seed: u64, tier: Tier, em: &mut Emitter) {
             {
                 continue;
             }
-            for encname in ["c.gz", "c.zst", "c.bz2", "c.xz", "c.GZIP", "c.zstd", "c.bzip2"] {
-                for name in raw_names {
+            for (ei, encname) in
+                ["c.gz", "c.zst", "c.bz2", "c.xz", "c.GZIP", "c.zstd", "c.bzip2"].into_iter().enumerate()
+            {
+                for (ni, name) in raw_names.into_iter().enumerate() {
+                    if !thorough && (ei + ni + (w + r) as usize) % 3 != 0 {
+                        continue;
+                    }
                     em.case(
                         "raw",
                         json!([r, name, ["enc", w, encname, recs_json(&body), 2], false]),
